@@ -31,20 +31,23 @@ pub enum Message {
 }
 
 pub(crate) trait TrySend {
-    fn try_send(self: Pin<&mut Self>, item: Message) -> ZmqResult<()>;
+    /// `Ok(true)` when the item is on its way, `Ok(false)` when part of it is still buffered
+    fn try_send(self: Pin<&mut Self>, item: Message) -> ZmqResult<bool>;
 }
 
 impl TrySend for ZmqFramedWrite {
-    fn try_send(mut self: Pin<&mut Self>, item: Message) -> ZmqResult<()> {
+    fn try_send(mut self: Pin<&mut Self>, item: Message) -> ZmqResult<bool> {
         let waker = noop_waker();
         let mut cx = Context::from_waker(&waker);
         match self.as_mut().poll_ready(&mut cx) {
             Poll::Ready(Ok(())) => {
                 self.as_mut().start_send(item)?;
-                // A flush that cannot finish now is fine (it continues with the next send), a failed one is not
+                // A flush that cannot finish now is fine (it is continued, see
+                // `SubscriberQueue`), a failed one is not
                 match self.as_mut().poll_flush(&mut cx) {
                     Poll::Ready(Err(e)) => Err(e.into()),
-                    _ => Ok(()),
+                    Poll::Ready(Ok(())) => Ok(true),
+                    Poll::Pending => Ok(false),
                 }
             }
             Poll::Ready(Err(e)) => Err(e.into()),
